@@ -315,6 +315,17 @@ func c13Run(r *vkit.Run) {
 						if c13Check(r, c13Input{Tokens: toks, Tree: prefix(tree)}) {
 							r.NonTrivial()
 						}
+						if red && n == 2 {
+							// every pair of parentheses doubled: ((x)) means x
+							var dbl []string
+							for _, t := range toks {
+								if t == "(" || t == ")" {
+									dbl = append(dbl, t)
+								}
+								dbl = append(dbl, t)
+							}
+							c13Check(r, c13Input{Tokens: dbl, Tree: prefix(tree)})
+						}
 					}
 					return
 				}
@@ -385,7 +396,7 @@ func c13Run(r *vkit.Run) {
 		}
 	}
 	r.Count("chains_where_right_nesting_changes_the_value", int64(nsep))
-	r.Note("bounds", fmt.Sprintf("all chains of 2..5 operands over 15 operators (54240 chains) x 2 operand tuples; all binary trees with 2..%d operators over %d operators printed with minimal and with redundant parentheses; both shapes of two arithmetic operators with every placement of one or two scalar literals; operations with a literal as operands of set operators; instant queries", K, len(opset)))
+	r.Note("bounds", fmt.Sprintf("all chains of 2..5 operands over 15 operators (54240 chains) x 2 operand tuples; all binary trees with 2..%d operators over %d operators printed with minimal, with redundant and (two operators) with doubled redundant parentheses; both shapes of two arithmetic operators with every placement of one or two scalar literals; operations with a literal as operands of set operators; instant queries", K, len(opset)))
 }
 
 func c13Replay(r *vkit.Run, v vkit.Violation) *vkit.Violation {
